@@ -22,9 +22,9 @@ func verifMkRule(forceRes string) *Rule {
 			return &Rule{Resource: res, MetricType: Concurrency, ParamIndex: 0, Threshold: rt.I64n("thr", 20), ParamsMaxCapacity: 5}
 		case 2: // invalid: negative threshold
 			return &Rule{Resource: res, MetricType: Concurrency, Threshold: -1}
-		case 3: // valid QPS reject rule with a specific item
+		case 3: // valid QPS reject rule with one specific item: symbolic key (of two) and symbolic threshold (0 = black-listed value)
 			return &Rule{Resource: res, MetricType: QPS, ControlBehavior: Reject, Threshold: rt.I64n("thr", 20), BurstCount: rt.I64n("burst", 10), DurationInSec: 1, ParamsMaxCapacity: 5,
-				SpecificItems: map[interface{}]int64{"x": 3}}
+				SpecificItems: map[interface{}]int64{[]string{"x", "y"}[rt.Choice(2)]: rt.I64n("sv", 2)}}
 		case 4: // valid throttling rule
 			return &Rule{Resource: res, MetricType: QPS, ControlBehavior: Throttling, Threshold: 10, MaxQueueingTimeMs: rt.I64n("maxq", 20), DurationInSec: 1, ParamsMaxCapacity: 5}
 		}
